@@ -22,6 +22,16 @@ def decoder():
     return _DEC
 
 
+_CDEC = None
+
+
+def compiled_decoder():
+    global _CDEC
+    if _CDEC is None:
+        _CDEC = sut.Decoder(compiled_template_cache_max=3)
+    return _CDEC
+
+
 def nested_diff(a, b, path='$'):
     """first difference between two nested-JSON structures (floats within tolerance)"""
     from vlib.compare import same_value
@@ -61,28 +71,40 @@ def check_case(case):
         feats.add('chain_of_blocks')
     out.nontrivial = 'bitmap_mixed' in feats or chain >= 2 or '204' in feats
     out.classes = sorted(feats)
-    o = sut.call(decoder().process, case.bytes)
+    _check_with(out, case, decoder(), '')
+    # the same for the template-compiling decoder (a documented constructor argument), first compiling, then from its cache --
+    # for templates in the domain of compilation (operators opened and closed inside one replication scope, C08)
+    if not out.failures and not case.decoded.unbalanced():
+        out.classes = sorted(set(out.classes) | {'also_with_template_compilation'})
+        for tag in ('template compilation: ', 'compiled template from the cache: '):
+            if _check_with(out, case, compiled_decoder(), tag).failures:
+                break
+    return out
+
+
+def _check_with(out, case, dec, tag):
+    o = sut.call(dec.process, case.bytes)
     if not o.ok:
-        return out.fail('decode raised %s@%s' % (o.exc_type, o.frame), error=o.msg)
+        return out.fail(tag + 'decode raised %s@%s' % (o.exc_type, o.frame), error=o.msg)
     ob = sut.observe(o.value)
     exp_links = case.links()
     for i in range(case.nsub):
         if ob['links'][i] != exp_links[i]:
-            return out.fail('bitmap link differs from the element the bitmap designates', subset=i,
+            return out.fail(tag + 'bitmap link differs from the element the bitmap designates', subset=i,
                             got=ob['links'][i], expected=exp_links[i], labels=case.labels()[i])
         if ob['labels'][i] != case.labels()[i]:
-            return out.fail('labels differ', subset=i, got=ob['labels'][i], expected=case.labels()[i])
+            return out.fail(tag + 'labels differ', subset=i, got=ob['labels'][i], expected=case.labels()[i])
         d = first_value_diff(ob['values'][i], case.values()[i])
         if d is not None:
-            return out.fail('value differs (marker width/reference?)', subset=i, index=d[0], got=d[1], expected=d[2],
+            return out.fail(tag + 'value differs (marker width/reference?)', subset=i, index=d[0], got=d[1], expected=d[2],
                             label=case.labels()[i][d[0]] if isinstance(d[0], int) else None)
     got_nested = rnested.strip_description(sut.nested_template_data(o.value))
     if len(got_nested) != case.nsub:
-        return out.fail('hierarchical view has a different number of subsets', got=len(got_nested))
+        return out.fail(tag + 'hierarchical view has a different number of subsets', got=len(got_nested))
     for i in range(case.nsub):
         d = nested_diff(got_nested[i], expected_nested(case, i))
         if d is not None:
-            return out.fail('hierarchical view: attribute / structure differs from the expected one', subset=i,
+            return out.fail(tag + 'hierarchical view: attribute / structure differs from the expected one', subset=i,
                             path=d[0], got=d[1], expected=d[2])
     return out
 
